@@ -30,12 +30,13 @@ fn render(m: &Model, layout: u32) -> String {
     // layout bits: 1 = two entries per line where possible, 2 = comments and blank lines, 4 = OBJSENSE on its own line, 8 = wide spacing/tabs
     let sp = if layout & 8 != 0 { "    " } else { " " };
     let mut s = String::new();
-    if layout & 2 != 0 { s.push_str("* generated\n"); }
+    if layout & 2 != 0 { s.push_str("* generated\n  \n"); }
     s.push_str("NAME          model1\n");
-    if let Some(mx) = m.maximize { if layout & 4 != 0 { s.push_str(&format!("OBJSENSE\n{sp}{}\n", if mx { "MAX" } else { "MIN" })); } else { s.push_str(&format!("OBJSENSE {}\n", if mx { "MAX" } else { "MIN" })); } }
+    if let Some(mx) = m.maximize { if layout & 4 != 0 { s.push_str(&format!("OBJSENSE\n{}{sp}{}\n", if layout & 2 != 0 { "   \n" } else { "" }, if mx { "MAX" } else { "MIN" })); } else { s.push_str(&format!("OBJSENSE {}\n", if mx { "MAX" } else { "MIN" })); } }
     s.push_str("ROWS\n");
     s.push_str(&format!("{sp}N{sp}{}\n", m.obj_name));
-    for r in &m.rows { s.push_str(&format!("{sp}{}{sp}{}\n", r.ty, r.name)); if layout & 2 != 0 { s.push_str("\n"); } }
+    // blank lines: empty, made of spaces, or containing a tab
+    for (k, r) in m.rows.iter().enumerate() { s.push_str(&format!("{sp}{}{sp}{}\n", r.ty, r.name)); if layout & 2 != 0 { s.push_str(["\n", "    \n", " \t \n"][k % 3]); } }
     s.push_str("COLUMNS\n");
     let mut in_int = false; let mut mk = 0;
     for (j, c) in m.cols.iter().enumerate() {
@@ -47,6 +48,7 @@ fn render(m: &Model, layout: u32) -> String {
         let per = if layout & 1 != 0 { 2 } else { 1 };
         for ch in entries.chunks(per) { s.push_str(&format!("{sp}{}", c.name)); for (rn, v) in ch { s.push_str(&format!("{sp}{rn}{sp}{v}")); } s.push('\n'); }
         if layout & 2 != 0 && j == 0 { s.push_str("* a comment line\n"); }
+        if layout & 2 != 0 && j == 1 { s.push_str("      \n"); }
     }
     if in_int { s.push_str(&format!("{sp}MARKEREND{sp}'MARKER'{sp}'INTEND'\n")); }
     s.push_str("RHS\n");
@@ -54,15 +56,16 @@ fn render(m: &Model, layout: u32) -> String {
     if let Some(b) = m.obj_rhs { rhs.push((m.obj_name.to_string(), b)); }
     for r in &m.rows { if let Some(b) = r.rhs { rhs.push((r.name.to_string(), b)); } }
     let per = if layout & 1 != 0 { 2 } else { 1 };
-    for ch in rhs.chunks(per) { s.push_str(&format!("{sp}RHS1")); for (rn, v) in ch { s.push_str(&format!("{sp}{rn}{sp}{v}")); } s.push('\n'); }
+    for ch in rhs.chunks(per) { s.push_str(&format!("{sp}RHS1")); for (rn, v) in ch { s.push_str(&format!("{sp}{rn}{sp}{v}")); } s.push('\n'); if layout & 2 != 0 { s.push_str("   \n"); } }
     if m.rows.iter().any(|r| r.range.is_some()) {
         s.push_str("RANGES\n");
-        for r in &m.rows { if let Some(g) = r.range { s.push_str(&format!("{sp}RNG{sp}{}{sp}{g}\n", r.name)); } }
+        for r in &m.rows { if let Some(g) = r.range { s.push_str(&format!("{sp}RNG{sp}{}{sp}{g}\n", r.name)); if layout & 2 != 0 { s.push_str("  \n"); } } }
     }
     if m.cols.iter().any(|c| !c.bounds.is_empty()) {
         s.push_str("BOUNDS\n");
         for c in &m.cols { for (k, v) in &c.bounds { match v { Some(v) => s.push_str(&format!("{sp}{k}{sp}BND{sp}{}{sp}{v}\n", c.name)), None => s.push_str(&format!("{sp}{k}{sp}BND{sp}{}\n", c.name)) } } }
     }
+    if layout & 2 != 0 { s.push_str("    \n"); }
     s.push_str("ENDATA\n");
     s
 }
